@@ -16,6 +16,8 @@ class Engine:
         self.eff = make_effects(self.p)
         self._cfgs = {}
         self._must = {}
+        self._canon = None
+        self._ccfgs = {}
 
     def cfg(self, func, extra_raises=None):
         if extra_raises is not None:
@@ -25,6 +27,30 @@ class Engine:
         if c is None:
             c = CFG(func.node)
             self._cfgs[k] = c
+        return c
+
+    # ---------------------------------------------------------------- canonical form (kv/canon.py)
+    @property
+    def canon(self):
+        if self._canon is None:
+            from .canon import Canon
+
+            self._canon = Canon(self.p)
+        return self._canon
+
+    def cnode(self, func):
+        """canonical tree of the function: single-use private helpers written out, aliases resolved, exits / negations / keyword arguments in one form"""
+        return self.canon.fn(func)
+
+    def csrc(self, func):
+        return self.canon.src(func)
+
+    def ccfg(self, func):
+        k = id(func)
+        c = self._ccfgs.get(k)
+        if c is None:
+            c = CFG(self.cnode(func))
+            self._ccfgs[k] = c
         return c
 
     # ---------------------------------------------------------------- call matching on CFG nodes
